@@ -4,12 +4,14 @@ package tree
 
 import (
 	"fmt"
+	"reflect"
 	"runtime/debug"
 	"strings"
 
 	pa "github.com/benoitkugler/webrender/css/parser"
 	pr "github.com/benoitkugler/webrender/css/properties"
 	"github.com/benoitkugler/webrender/css/selector"
+	"github.com/benoitkugler/webrender/utils"
 )
 
 // Contracts for the deductive verifier in /verif (build tag verif: not compiled
@@ -453,3 +455,63 @@ func vResolveVar() (int, []string) {
 //@   return 2 ensures[thick] value.S == "thick" ==> result.(pr.DimOrS).Value == 5
 //@   return 2 ensures[only-keywords] value.S == "thin" || value.S == "medium" || value.S == "thick"
 //@   return 3 ensures[length] style != "none" && style != "hidden" && value.S != "thin" && value.S != "medium" && value.S != "thick"
+
+// ---------------------------------------------------------------------------
+// bounded stand-in (C04): "no winning declaration -> initial value -> computed value". cascadeValue
+// skips the computation of an initial value unless the property is listed in pr.InitialNotComputed
+// ("the value is the same as when computed"). vInitialValuesComputed checks that claim for EVERY property
+// of the table (finite, exhaustive): for a property that is not listed, running its computing function on
+// the initial value in the style of an element must not turn a keyword into a number or currentColor into
+// a colour (changes of representation only — 0 to 0px, nil to an empty list — are tolerated by the readers).
+func vInitialValuesComputed() (int, []string) {
+	page, err := NewHTML(utils.InputString("<style>p { column-rule-style: solid; border-style: solid; outline-style: solid }</style><p></p>"), "", nil, "")
+	if err != nil {
+		return 0, []string{"cannot build the document: " + err.Error()}
+	}
+	styleFor := GetAllComputedStyles(page, nil, false, nil, nil, nil, nil, false, nil)
+	var p *utils.HTMLNode
+	it := page.Root.Iter()
+	for it.HasNext() {
+		if e := it.Next(); e.Data == "p" {
+			p = (*utils.HTMLNode)(e)
+		}
+	}
+	if p == nil {
+		return 0, []string{"no <p> in the document"}
+	}
+	style, ok := styleFor.Get(p, "").(*ComputedStyle)
+	if !ok {
+		return 0, []string{"the style of <p> is not a *ComputedStyle"}
+	}
+	n := 0
+	var fails []string
+	for prop, initial := range pr.InitialValues {
+		fn := computerFunctions[prop]
+		if fn == nil || pr.InitialNotComputed.Has(prop) {
+			continue
+		}
+		n++
+		func() {
+			defer func() {
+				if r := recover(); r != nil {
+					fails = append(fails, fmt.Sprintf("%s: computing the initial value panics: %v", prop, r))
+				}
+			}()
+			got := fn(style, prop, initial)
+			// representation changes (0 -> 0px, normal -> contents, nil -> empty list) are tolerated by the
+			// readers; a KEYWORD that computes to a number, or currentColor to a colour, is not
+			if d0, ok := initial.(pr.DimOrS); ok && d0.S != "" {
+				if d1, ok := got.(pr.DimOrS); ok && d1.S == "" {
+					fails = append(fails, fmt.Sprintf("%s: the initial keyword %q computes to %v %v but is used as it is", prop, d0.S, d1.Value, d1.Unit))
+				}
+			}
+			if c0, ok := initial.(pr.Color); ok && !reflect.DeepEqual(got, initial) {
+				fails = append(fails, fmt.Sprintf("%s: the initial colour %v computes to %v but is used as it is", prop, c0, got))
+			}
+		}()
+	}
+	return n, fails
+}
+
+//@ bounded vInitialValuesComputed every property with a computing function that is not listed in InitialNotComputed: an initial keyword does not compute to a number, an initial colour computes to itself (exhaustive over the property table)
+//@   props C04
